@@ -740,3 +740,38 @@ def setter_routes(rep, rule, cls, name, site, target='_setBases', construct='set
               'assignment to %s goes through self.%s(value)' % (name, target)
               if not probs else {'problems': sorted(set(probs))[:3]},
               construct=construct, node=cls)
+
+
+def generation_monotone(rep, rule, mod):
+    """the generation counter only ever moves forward: a verifying sub-registry
+    compares snapshots of it by equality, so any other store (a reset in
+    __init__, which rebuild() re-runs on a live registry; a restore) can bring
+    it back to a value a snapshot already holds and hide the changes in between"""
+    writers = []
+    for fn in ast.walk(mod):
+        if not isinstance(fn, (ast.FunctionDef, ast.AsyncFunctionDef)):
+            continue
+        for n in ast.walk(fn):
+            tgts = []
+            if isinstance(n, ast.Assign):
+                tgts = [(t, 'store') for t in n.targets]
+            elif isinstance(n, ast.AugAssign):
+                inc = isinstance(n.op, ast.Add) and isinstance(n.value, ast.Constant) \
+                    and n.value.value == 1
+                tgts = [(n.target, 'increment' if inc else 'store')]
+            elif isinstance(n, ast.Delete):
+                tgts = [(t, 'store') for t in n.targets]
+            elif isinstance(n, ast.Call) and dotted(n.func) in ('setattr', 'delattr') and \
+                    len(n.args) >= 2 and isinstance(n.args[1], ast.Constant) and \
+                    n.args[1].value == '_generation':
+                writers.append((fn.name, 'store'))
+            for t, kind in tgts:
+                for x in ast.walk(t):
+                    if isinstance(x, ast.Attribute) and x.attr == '_generation' and \
+                            isinstance(x.ctx, (ast.Store, ast.Del)):
+                        writers.append((fn.name, kind))
+    okw = bool(writers) and all(w == ('changed', 'increment') for w in writers)
+    rep.check(rule, 'BaseAdapterRegistry._generation', okw,
+              'the generation counter is only ever incremented, and only by '
+              'changed(): %s' % sorted(set(writers)), construct='monotone',
+              node=find_def(mod, 'BaseAdapterRegistry'))
